@@ -14,7 +14,7 @@ from trie.exceptions import (
 from trie.fog import HexaryTrieFog, TrieFrontierCache
 
 from ..core import HarnessError, Violation, deep, hx, unhx
-from ..hgen import HistoryGen, make_pool, make_values, probe_keys
+from ..hgen import HistoryGen, make_pool, make_values, probe_keys, rare_huge
 from ..hworld import HWorld
 from ..models.mpt import RefMPT, bytes_of, nibbles_of
 
@@ -328,7 +328,7 @@ def gen_query(rng, pool):
 
 
 def generate(rng):
-    pool = make_pool(rng, size=rng.choice([4, 6, 8, 10, 12, 16, 24, 32]))
+    pool = make_pool(rng, size=rng.choice([4, 6, 8, 10, 12, 16, 24, 32]), style=rare_huge(rng))
     values = make_values(rng)
     probes = probe_keys(rng, pool, extra=1)
     prune = rng.random() < 0.5
